@@ -59,6 +59,10 @@ fn clean_command(path: &str) -> Result<()> {
 
     for path in paths {
         let path = path?;
+        // only files are bytecode: a directory that happens to be called `x.mmm` is left alone
+        if path.file_type()?.is_dir() {
+            continue;
+        }
         if Path::new(&path.file_name())
             .extension()
             .is_some_and(|ext| ext == "mmm")
